@@ -5,6 +5,8 @@ import (
 	"fmt"
 	"strconv"
 	"strings"
+	"sync"
+	"time"
 
 	"github.com/moorara/algo/unionfind"
 
@@ -99,12 +101,33 @@ func size(set []bool) int {
 // Exec runs one case on the real unionfind package (the header's implementation produces the output
 // lines; the other two run alongside for the cross comparison) and on the reachability oracle.
 func Exec(c hx.Case) hx.Result {
+	var mu sync.Mutex
+	res := &hx.Result{BadOp: -1}
+	finished := hx.WithTimeout(watchdog, func() { execCase(c, res, &mu) })
+	mu.Lock()
+	defer mu.Unlock()
+	if finished {
+		return *res
+	}
+	// a Find loop that never returns: the goroutine is stuck inside op len(Outs)
+	snap := hx.Result{BadOp: res.BadOp, What: res.What, Outs: append([]string{}, res.Outs...), Tags: []string{"hang"}}
+	i := len(snap.Outs)
+	snap.Outs = append(snap.Outs, "hang")
+	if snap.BadOp < 0 {
+		snap.BadOp = i
+		snap.What = fmt.Sprintf("%s did not return within %v", c.Ops[i], watchdog)
+	}
+	return snap
+}
+
+const watchdog = 5 * time.Second
+
+func execCase(c hx.Case, res *hx.Result, mu *sync.Mutex) {
 	comp := hx.HeaderGet(c.Header, "comp")
 	n, _ := strconv.Atoi(hx.HeaderGet(c.Header, "n"))
 	if n < 0 {
 		n = 0
 	}
-	res := hx.Result{BadOp: -1}
 	bad := func(i int, format string, a ...any) {
 		if res.BadOp < 0 {
 			res.BadOp = i
@@ -117,7 +140,7 @@ func Exec(c hx.Case) hx.Result {
 		for range c.Ops {
 			res.Outs = append(res.Outs, "bad-case")
 		}
-		return res
+		return
 	}
 	var others []unionfind.UnionFind
 	var otherNames []string
@@ -136,128 +159,118 @@ func Exec(c hx.Case) hx.Result {
 	for i, op := range c.Ops {
 		f := strings.Fields(op)
 		out := "bad-op"
-		hung := false
-		kind := ""
-		done := hx.WithTimeout(watchdog, func() {
-			kind = hx.Try(func() {
-				switch {
-				case f[0] == "union" && len(f) == 3:
-					p, q := atoi(f[1]), atoi(f[2])
-					u.Union(p, q)
-					for _, w := range others {
-						w.Union(p, q)
-					}
-					out = "ok"
-					if !o.valid(p) || !o.valid(q) {
-						tags["union-invalid"] = true
-						if merges > 0 {
-							nontrivial = true
-						}
-					} else if p == q {
-						tags["union-self"] = true
-					} else {
-						cp := o.class(p)
-						if cp[q] {
-							tags["union-redundant"] = true
-							nontrivial = true
-						} else {
-							tags["union-merge"] = true
-							merges++
-							if size(cp) >= 2 && size(o.class(q)) >= 2 {
-								tags["union-merge-two-trees"] = true
-								nontrivial = true
-							}
-						}
-					}
-					o.add(p, q)
-				case f[0] == "find" && len(f) == 2:
-					p := atoi(f[1])
-					r, ok := u.Find(p)
-					out = fmt.Sprintf("ok %d %v", r, ok)
-					if !o.valid(p) {
-						tags["find-invalid"] = true
-						if merges > 0 {
-							nontrivial = true
-						}
-						if ok || r != -1 {
-							bad(i, "find %d (out of range, n=%d) returned (%d,%v), want (-1,false)", p, n, r, ok)
-						}
-						break
-					}
-					if !ok || !o.valid(r) {
-						bad(i, "find %d returned (%d,%v): not a valid representative", p, r, ok)
-						break
-					}
-					cls := o.class(p)
-					if !cls[r] {
-						bad(i, "find %d returned %d, which no chain of unions links to %d", p, r, p)
-					}
-					// same representative iff connected, against every element
-					for x := 0; x < n; x++ {
-						rx, okx := u.Find(x)
-						if !okx || (rx == r) != cls[x] {
-							bad(i, "find %d = %d and find %d = (%d,%v), but reachable(%d,%d) = %v", p, r, x, rx, okx, p, x, cls[x])
-							break
-						}
-					}
-					for k, w := range others {
-						if _, okw := w.Find(p); !okw {
-							bad(i, "find %d: %s says not found, %s found %d", p, otherNames[k], comp, r)
-						}
-					}
-				case f[0] == "connected" && len(f) == 3:
-					p, q := atoi(f[1]), atoi(f[2])
-					got := u.IsConnected(p, q)
-					out = "ok " + strconv.FormatBool(got)
-					if !o.valid(p) || !o.valid(q) {
-						tags["connected-invalid"] = true
-						if merges > 0 {
-							nontrivial = true
-						}
-					}
-					if want := o.connected(p, q); got != want {
-						bad(i, "connected %d %d = %v, reachability over the union pairs says %v", p, q, got, want)
-					}
-					for k, w := range others {
-						if g := w.IsConnected(p, q); g != got {
-							bad(i, "connected %d %d: %s says %v, %s says %v", p, q, comp, got, otherNames[k], g)
-						}
-					}
-				case f[0] == "count" && len(f) == 1:
-					got := u.Count()
-					out = "ok " + strconv.Itoa(got)
-					if want := o.classes(); got != want {
-						bad(i, "count = %d, the union pairs leave %d classes", got, want)
-					}
-					if got != n-merges {
-						bad(i, "count = %d, want n - merges = %d - %d", got, n, merges)
-					}
-					for k, w := range others {
-						if g := w.Count(); g != got {
-							bad(i, "count: %s says %d, %s says %d", comp, got, otherNames[k], g)
-						}
-					}
-				case f[0] == "dump" && len(f) == 1:
-					out = "ok " + unionfind.VerifDump(u)
+		kind := hx.Try(func() {
+			switch {
+			case f[0] == "union" && len(f) == 3:
+				p, q := atoi(f[1]), atoi(f[2])
+				u.Union(p, q)
+				for _, w := range others {
+					w.Union(p, q)
 				}
-			})
+				out = "ok"
+				if !o.valid(p) || !o.valid(q) {
+					tags["union-invalid"] = true
+					if merges > 0 {
+						nontrivial = true
+					}
+				} else if p == q {
+					tags["union-self"] = true
+				} else {
+					cp := o.class(p)
+					if cp[q] {
+						tags["union-redundant"] = true
+						nontrivial = true
+					} else {
+						tags["union-merge"] = true
+						merges++
+						if size(cp) >= 2 && size(o.class(q)) >= 2 {
+							tags["union-merge-two-trees"] = true
+							nontrivial = true
+						}
+					}
+				}
+				o.add(p, q)
+			case f[0] == "find" && len(f) == 2:
+				p := atoi(f[1])
+				r, ok := u.Find(p)
+				out = fmt.Sprintf("ok %d %v", r, ok)
+				if !o.valid(p) {
+					tags["find-invalid"] = true
+					if merges > 0 {
+						nontrivial = true
+					}
+					if ok || r != -1 {
+						bad(i, "find %d (out of range, n=%d) returned (%d,%v), want (-1,false)", p, n, r, ok)
+					}
+					break
+				}
+				if !ok || !o.valid(r) {
+					bad(i, "find %d returned (%d,%v): not a valid representative", p, r, ok)
+					break
+				}
+				cls := o.class(p)
+				if !cls[r] {
+					bad(i, "find %d returned %d, which no chain of unions links to %d", p, r, p)
+				}
+				// same representative iff connected, against every element
+				for x := 0; x < n; x++ {
+					rx, okx := u.Find(x)
+					if !okx || (rx == r) != cls[x] {
+						bad(i, "find %d = %d and find %d = (%d,%v), but reachable(%d,%d) = %v", p, r, x, rx, okx, p, x, cls[x])
+						break
+					}
+				}
+				for k, w := range others {
+					if _, okw := w.Find(p); !okw {
+						bad(i, "find %d: %s says not found, %s found %d", p, otherNames[k], comp, r)
+					}
+				}
+			case f[0] == "connected" && len(f) == 3:
+				p, q := atoi(f[1]), atoi(f[2])
+				got := u.IsConnected(p, q)
+				out = "ok " + strconv.FormatBool(got)
+				if !o.valid(p) || !o.valid(q) {
+					tags["connected-invalid"] = true
+					if merges > 0 {
+						nontrivial = true
+					}
+				}
+				if want := o.connected(p, q); got != want {
+					bad(i, "connected %d %d = %v, reachability over the union pairs says %v", p, q, got, want)
+				}
+				for k, w := range others {
+					if g := w.IsConnected(p, q); g != got {
+						bad(i, "connected %d %d: %s says %v, %s says %v", p, q, comp, got, otherNames[k], g)
+					}
+				}
+			case f[0] == "count" && len(f) == 1:
+				got := u.Count()
+				out = "ok " + strconv.Itoa(got)
+				if want := o.classes(); got != want {
+					bad(i, "count = %d, the union pairs leave %d classes", got, want)
+				}
+				if got != n-merges {
+					bad(i, "count = %d, want n - merges = %d - %d", got, n, merges)
+				}
+				for k, w := range others {
+					if g := w.Count(); g != got {
+						bad(i, "count: %s says %d, %s says %d", comp, got, otherNames[k], g)
+					}
+				}
+			case f[0] == "dump" && len(f) == 1:
+				out = "ok " + unionfind.VerifDump(u)
+			}
 		})
-		if !done {
-			hung = true
-		}
-		if hung {
-			res.Outs = append(res.Outs, "hang")
-			bad(i, "%s did not return", op)
-			tags["hang"] = true
-			break
-		}
+		mu.Lock()
 		if kind != "" {
 			res.Outs = append(res.Outs, "panic")
 			bad(i, "%s panicked (%s)", op, kind)
 			tags["panic"] = true
+			mu.Unlock()
 			break
 		}
 		res.Outs = append(res.Outs, out)
+		mu.Unlock()
 	}
 	if merges > 0 {
 		tags["merged"] = true
@@ -265,9 +278,10 @@ func Exec(c hx.Case) hx.Result {
 	if n > 0 && merges == n-1 {
 		tags["all-joined"] = true
 	}
+	mu.Lock()
+	defer mu.Unlock()
 	res.Nontrivial = nontrivial
 	for t := range tags {
 		res.Tags = append(res.Tags, t)
 	}
-	return res
 }
